@@ -7,7 +7,10 @@ from runner import Case
 from props import _dag_util as U
 
 THEOREMS = [
-    "C17.list_roundtrip", "C17.list_export_each_edge_once", "C17.list_cycle_refused", "C17.list_acyclic_accepted",
+    "C17.list_roundtrip", "C17.dict_roundtrip", "C17.rows_roundtrip",
+    "C17.export_each_edge_once", "C17.cycle_refused",
+    "C17.list_export_each_edge_once", "C17.dict_export_each_edge_once", "C17.rows_export_each_edge_once",
+    "C17.list_cycle_refused", "C17.dict_cycle_refused", "C17.rows_cycle_refused", "C17.list_acyclic_accepted",
 ]
 PROOF_IMPORTS = ["BigtreeProofs.Properties.C17"]
 RULE = ("round-trip cases: a weakly connected DAG with >=1 edge (edges in construction order, added through random "
